@@ -10,7 +10,9 @@ META = {
             "(the balancer equals the connect/disconnect history's own list), a remote node only when allow = true, no balancer for e exists and the node is an "
             "active remote node advertising e; for a stable set of n upstreams any n consecutive selections are a permutation of the set; under arbitrary "
             "interleaved removals of other upstreams and additions every remaining upstream is selected within (set size + number of additions) further "
-            "selections. The model is tied to server/upstream/manager.go by replaying generated op scripts on the real LoadBalancedManager + cluster.State + "
+            "selections; sharper (C15_no_starvation_churn): if the endpoint never holds more than M upstreams meanwhile and f disconnects hit an upstream stored "
+            "in front of u, u is selected within (1 + f) * (M - 1) + 1 selections - connects and disconnects behind u (a flapping connection) never delay it, "
+            "which a Remove that restarts the rotation violates (C15_reset_variant_refuted). The model is tied to server/upstream/manager.go by replaying generated op scripts on the real LoadBalancedManager + cluster.State + "
             "syncer + gossip state and on the model (inside Coq) after every op, including the balancer's slice and nextIndex.",
     "note": "Trusted: Coq kernel+VM, the hand-written model, the Go harness/translation. Concurrency: every mutation and selection runs under the manager mutex; "
             "the concurrent harness mode (8 goroutines, race detector in the thorough tier) exercises that assumption, it is not proved. "
